@@ -117,6 +117,244 @@ theorem parseSblk_ok (mem : Bytes) (s : Sblk) (h : WfNode mem.length s)
   have hrecs := parseRecs_ok mem s h (fun w hw => rd w (by simp [nodeWrites, hw]))
   simp only [parseSblk, hin, hdec, hk3, hsz, hki, hrecs, Bool.not_true, Bool.false_eq_true, if_false, hk]
 
+/-! ### a node filled through `_kvblk_addkv` on a fresh block -/
+
+def total (es : List Bytes) : Nat := (es.map List.length).sum
+
+theorem length_layoutOffs (acc : Nat) (es : List Bytes) : (layoutOffs acc es).length = es.length := by
+  induction es generalizing acc with
+  | nil => rfl
+  | cons e es ih => simp [layoutOffs, ih]
+
+/-- the `i`-th appended record: its length, and it lies below everything appended before -/
+theorem layoutOffs_get (acc : Nat) (es : List Bytes) (i : Nat) (hi : i < es.length) :
+    ∃ off, (layoutOffs acc es)[i]? = some (off, es[i].length) ∧ acc + es[i].length ≤ off ∧ off ≤ acc + total es := by
+  induction es generalizing acc i with
+  | nil => simp at hi
+  | cons e es ih =>
+    cases i with
+    | zero => exact ⟨acc + e.length, by simp [layoutOffs], by simp, by simp [total]⟩
+    | succ i =>
+      obtain ⟨off, h1, h2, h3⟩ := ih (acc + e.length) i (by simpa using hi)
+      refine ⟨off, by simpa [layoutOffs] using h1, by simp; omega, ?_⟩
+      simp only [total, List.map_cons, List.sum_cons] at h3 ⊢; omega
+
+theorem layoutOffs_sep (acc : Nat) (es : List Bytes) (i j : Nat) (hij : i < j) (hj : j < es.length)
+    (a b : Nat × Nat) (ha : (layoutOffs acc es)[i]? = some a) (hb : (layoutOffs acc es)[j]? = some b) :
+    a.1 + b.2 ≤ b.1 := by
+  induction es generalizing acc i j with
+  | nil => simp at hj
+  | cons e es ih =>
+    cases j with
+    | zero => omega
+    | succ j =>
+      cases i with
+      | zero =>
+        simp only [layoutOffs, List.getElem?_cons_zero, Option.some.injEq] at ha
+        simp only [layoutOffs, List.getElem?_cons_succ] at hb
+        obtain ⟨off, h1, h2, _⟩ := layoutOffs_get (acc + e.length) es j (by simpa using hj)
+        rw [h1] at hb
+        cases hb; subst ha
+        simp; omega
+      | succ i =>
+        simp only [layoutOffs, List.getElem?_cons_succ] at ha hb
+        exact ih (acc + e.length) i j (by omega) (by simpa using hj) ha hb
+
+theorem mem_zip_range {α : Type} (l : List α) (x : Nat × α) (hx : x ∈ (List.range l.length).zip l) :
+    ∃ i, ∃ h : i < l.length, x = (i, l[i]) := by
+  obtain ⟨i, hi, rfl⟩ := List.mem_iff_getElem.1 hx
+  simp only [List.length_zip, List.length_range, Nat.min_self] at hi
+  exact ⟨i, hi, by simp⟩
+
+/-- conditions under which `_kvblk_addkv` puts `recs` into a fresh block of `2^szpow` bytes at the given place -/
+structure NodeFits (size : Nat) (p : NodePlace) (lvl : Nat) (n : List Nat) (p0 : Nat) (recs : List (Bytes × Bytes)) : Prop where
+  cnt : recs.length ≤ Gen.KVBLK_IDXNUM
+  lvl_lt : lvl < Gen.SLEVELS
+  n_len : n.length = lvl + 1
+  n_lt : ∀ x ∈ n, x < 2 ^ 32
+  p0_lt : p0 < 2 ^ 32
+  kblk_lt : p.kblk < 2 ^ 32
+  bpos_lt : p.bpos < 256
+  blk_ne : p.blk ≠ 0
+  keys : ∀ r ∈ recs, Bytes.wf r.1
+  kvsz : ∀ r ∈ recs, (encKv r.1 r.2).length ≤ Gen.IWKV_MAX_KVSZ
+  szpow : p.szpow ≤ 40
+  fits : Gen.KVBLK_HDRSZ + (encSlots (layoutSlots recs)).length + total (recs.map fun r => encKv r.1 r.2) ≤ 2 ^ p.szpow
+  node_in : p.blk * bs + Gen.SBLK_SZ ≤ size
+  data_in : p.kblk * bs + 2 ^ p.szpow ≤ size
+  apart : p.blk * bs + Gen.SBLK_SZ ≤ p.kblk * bs ∨ p.kblk * bs + 2 ^ p.szpow ≤ p.blk * bs
+
+theorem pow40 (k : Nat) (h : k ≤ 40) : 2 ^ k ≤ 2 ^ 40 := Nat.pow_le_pow_right (by decide) h
+
+theorem mkNode_pi (p : NodePlace) (lvl : Nat) (n : List Nat) (p0 : Nat) (recs : List (Bytes × Bytes)) :
+    (mkNode p lvl n p0 recs).pi = List.range recs.length := by
+  simp [mkNode, SblkRec.pi]
+
+theorem mkNode_slot (p : NodePlace) (lvl : Nat) (n : List Nat) (p0 : Nat) (recs : List (Bytes × Bytes))
+    (i : Nat) (hi : i < recs.length) :
+    ∃ off, (mkNode p lvl n p0 recs).slots[i]? = some (off, (encKv recs[i].1 recs[i].2).length) ∧
+      (encKv recs[i].1 recs[i].2).length ≤ off ∧ off ≤ total (recs.map fun r => encKv r.1 r.2) := by
+  obtain ⟨off, h1, h2, h3⟩ := layoutOffs_get 0 (recs.map fun r => encKv r.1 r.2) i (by simpa using hi)
+  refine ⟨off, ?_, by simpa using h2, by simpa using h3⟩
+  simp only [mkNode, layoutSlots]
+  rw [List.getElem?_append_left (by rw [length_layoutOffs]; simpa using hi), h1]
+  simp
+
+theorem total_ge {es : List Bytes} {e : Bytes} (h : e ∈ es) : e.length ≤ total es := by
+  induction es with
+  | nil => simp at h
+  | cons x xs ih =>
+    simp only [total, List.map_cons, List.sum_cons] at *
+    rcases List.mem_cons.1 h with rfl | h'
+    · omega
+    · have := ih h'; omega
+
+theorem mkNode_slots_wf (size : Nat) (p : NodePlace) (lvl : Nat) (n : List Nat) (p0 : Nat) (recs : List (Bytes × Bytes))
+    (h : NodeFits size p lvl n p0 recs) : WfSlots (mkNode p lvl n p0 recs).slots := by
+  intro q hq
+  simp only [mkNode, layoutSlots, List.mem_append, List.mem_replicate] at hq
+  rcases hq with hq | ⟨_, rfl⟩
+  · obtain ⟨i, hi, rfl⟩ := List.mem_iff_getElem.1 hq
+    rw [length_layoutOffs, List.length_map] at hi
+    obtain ⟨off, h1, h2, h3⟩ := layoutOffs_get 0 (recs.map fun r => encKv r.1 r.2) i (by simpa using hi)
+    rw [List.getElem?_eq_getElem (by rw [length_layoutOffs]; simpa using hi)] at h1
+    simp only [Option.some.injEq] at h1
+    rw [h1]
+    have hk := h.kvsz recs[i] (List.getElem_mem hi)
+    have hf := h.fits
+    have hp := pow40 _ h.szpow
+    simp only [List.getElem_map, Gen.IWKV_MAX_KVSZ, Nat.zero_add] at *
+    constructor <;> simp <;> omega
+  · decide
+
+theorem mkNode_wf (size : Nat) (p : NodePlace) (lvl : Nat) (n : List Nat) (p0 : Nat) (recs : List (Bytes × Bytes))
+    (h : NodeFits size p lvl n p0 recs) : WfNode size (mkNode p lvl n p0 recs) := by
+  have hcnt := h.cnt
+  have hslen : (mkNode p lvl n p0 recs).slots.length = Gen.KVBLK_IDXNUM := by
+    simp only [mkNode, layoutSlots, List.length_append, length_layoutOffs, List.length_map, List.length_replicate]; omega
+  refine ⟨⟨?_, h.lvl_lt, ?_, h.cnt, h.p0_lt, h.kblk_lt, ?_, ?_, h.n_len, h.n_lt, h.bpos_lt, rfl, ?_⟩, ?_, h.blk_ne, h.node_in, h.szpow,
+    h.data_in, ?_, rfl, ?_⟩
+  · simp only [mkNode, Gen.SBLK_FULL_LKEY]; split <;> omega
+  · simp only [mkNode, List.length_take]; omega
+  · simp only [mkNode, List.length_append, List.length_range, List.length_replicate]; omega
+  · intro x hx
+    simp only [mkNode, List.mem_append, List.mem_range, List.mem_replicate] at hx
+    simp only [Gen.KVBLK_IDXNUM] at hcnt
+    rcases hx with hx | ⟨_, rfl⟩ <;> omega
+  · intro x hx
+    simp only [mkNode] at hx
+    have hx := List.mem_of_mem_take hx
+    cases hr : recs with
+    | nil => simp [hr] at hx
+    | cons r rs =>
+      simp only [hr, List.head?_cons, Option.map_some, Option.getD_some] at hx
+      exact h.keys r (by simp [hr]) x hx
+  · exact wfKvIndex_ofSlots p.szpow _ (by have := h.szpow; omega) hslen (mkNode_slots_wf size p lvl n p0 recs h)
+  · have := h.fits; simp only [mkNode]; omega
+  · intro x hx
+    rw [mkNode_pi] at hx
+    obtain ⟨i, hi, rfl⟩ := mem_zip_range recs x hx
+    obtain ⟨off, h1, h2, h3⟩ := mkNode_slot p lvl n p0 recs i hi
+    have hpos := encKv_length_pos recs[i].1 recs[i].2
+    have hf := h.fits
+    have hk := h.kvsz recs[i] (List.getElem_mem hi)
+    refine ⟨off, _, h1, rfl, by omega, by simp only [mkNode]; omega, ?_⟩
+    simp only [encKv, List.length_append, Gen.IWKV_MAX_KVSZ] at hk
+    simp only; omega
+
+theorem length_recWrites_mkNode (p : NodePlace) (lvl : Nat) (n : List Nat) (p0 : Nat) (recs : List (Bytes × Bytes)) :
+    (recWrites (mkNode p lvl n p0 recs)).length = recs.length := by
+  simp only [recWrites, mkNode_pi, List.length_map, List.length_zip, List.length_range]
+  simp [mkNode]
+
+/-- the `i`-th record store: right below the `i-1`-th, counted from the block end -/
+theorem recWrites_mkNode_get (p : NodePlace) (lvl : Nat) (n : List Nat) (p0 : Nat) (recs : List (Bytes × Bytes))
+    (i : Nat) (hi : i < recs.length) :
+    ∃ off, (recWrites (mkNode p lvl n p0 recs))[i]? = some (p.kblk * bs + 2 ^ p.szpow - off, encKv recs[i].1 recs[i].2) ∧
+      (layoutOffs 0 (recs.map fun r => encKv r.1 r.2))[i]? = some (off, (encKv recs[i].1 recs[i].2).length) ∧
+      (encKv recs[i].1 recs[i].2).length ≤ off ∧ off ≤ total (recs.map fun r => encKv r.1 r.2) := by
+  obtain ⟨off, h1, h2, h3⟩ := layoutOffs_get 0 (recs.map fun r => encKv r.1 r.2) i (by simpa using hi)
+  simp only [List.getElem_map, Nat.zero_add] at h1 h2 h3
+  refine ⟨off, ?_, h1, h2, h3⟩
+  have hs : (mkNode p lvl n p0 recs).slots[i]? = some (off, (encKv recs[i].1 recs[i].2).length) := by
+    simp only [mkNode, layoutSlots]
+    rw [List.getElem?_append_left (by rw [length_layoutOffs]; simpa using hi), h1]
+  have hr : (mkNode p lvl n p0 recs).recs = recs := rfl
+  simp only [recWrites, mkNode_pi, hr, List.getElem?_map]
+  rw [List.getElem?_eq_getElem (by simpa using hi)]
+  simp only [List.getElem_zip, List.getElem_range, Option.map_some, List.getD, hs, Option.getD_some]
+  rfl
+
+theorem mkNode_writes (size : Nat) (p : NodePlace) (lvl : Nat) (n : List Nat) (p0 : Nat) (recs : List (Bytes × Bytes))
+    (h : NodeFits size p lvl n p0 recs) : WfWrites size (nodeWrites (mkNode p lvl n p0 recs)) := by
+  have hwf := mkNode_wf size p lvl n p0 recs h
+  have hsw := sblkWrites_wf _ hwf.srec
+  have hil := encKvIndex_length (mkNode p lvl n p0 recs).toKvIndex
+  have hfit := h.fits
+  have hfit' : (encSlots (mkNode p lvl n p0 recs).slots).length = (encSlots (layoutSlots recs)).length := rfl
+  have hn := h.node_in; have hd := h.data_in
+  have hblk : (mkNode p lvl n p0 recs).blk = p.blk := rfl
+  have hkblk : (mkNode p lvl n p0 recs).kblk = p.kblk := rfl
+  -- facts about one record store
+  have hrec : ∀ w ∈ recWrites (mkNode p lvl n p0 recs), ∃ off, w.1 = p.kblk * bs + 2 ^ p.szpow - off ∧
+      w.2.length ≤ off ∧ off ≤ total (recs.map fun r => encKv r.1 r.2) := by
+    intro w hw
+    obtain ⟨i, hi, rfl⟩ := List.mem_iff_getElem.1 hw
+    rw [length_recWrites_mkNode] at hi
+    obtain ⟨off, h1, _, h3, h4⟩ := recWrites_mkNode_get p lvl n p0 recs i hi
+    rw [List.getElem?_eq_getElem (by rw [length_recWrites_mkNode]; exact hi)] at h1
+    simp only [Option.some.injEq] at h1
+    exact ⟨off, by rw [h1], by rw [h1]; exact h3, h4⟩
+  constructor
+  · intro w hw
+    simp only [nodeWrites, shift, List.mem_append, List.mem_map, List.mem_cons] at hw
+    rcases hw with ⟨x, hx, rfl⟩ | rfl | hw
+    · have := hsw.1 x hx
+      simp only [hblk]; omega
+    · simp only [hkblk, hil, hfit']; omega
+    · obtain ⟨off, h1, h2, h3⟩ := hrec w hw
+      omega
+  · simp only [nodeWrites]
+    rw [List.pairwise_append]
+    refine ⟨?_, ?_, ?_⟩
+    · simp only [shift]
+      rw [List.pairwise_map]
+      exact hsw.2.imp (by intro a b hab; simp only; omega)
+    · rw [List.pairwise_cons]
+      constructor
+      · intro w hw
+        obtain ⟨off, h1, h2, h3⟩ := hrec w hw
+        simp only [hkblk, hil, hfit']; omega
+      · rw [List.pairwise_iff_getElem]
+        intro i j hi hj hij
+        rw [length_recWrites_mkNode] at hi hj
+        obtain ⟨oi, a1, a2, a3, a4⟩ := recWrites_mkNode_get p lvl n p0 recs i hi
+        obtain ⟨oj, b1, b2, b3, b4⟩ := recWrites_mkNode_get p lvl n p0 recs j hj
+        have hsep := layoutOffs_sep 0 _ i j hij (by simpa using hj) _ _ a2 b2
+        rw [List.getElem?_eq_getElem (by rw [length_recWrites_mkNode]; exact hi)] at a1
+        rw [List.getElem?_eq_getElem (by rw [length_recWrites_mkNode]; exact hj)] at b1
+        simp only [Option.some.injEq] at a1 b1
+        rw [a1, b1]
+        simp only at hsep ⊢
+        omega
+    · intro a ha b hb
+      simp only [shift, List.mem_map] at ha
+      obtain ⟨x, hx, rfl⟩ := ha
+      have hx' := hsw.1 x hx
+      have hap := h.apart
+      simp only [hblk]
+      rcases List.mem_cons.1 hb with rfl | hb
+      · simp only [hkblk, hil, hfit']; omega
+      · obtain ⟨off, h1, h2, h3⟩ := hrec b hb
+        omega
+
+theorem enc_small (n : Nat) (h : n < 128) : Vnum.enc n = [n] := by rw [Vnum.enc]; simp [h]
+
+theorem total_nil : total [] = 0 := rfl
+theorem total_cons (e : Bytes) (es : List Bytes) : total (e :: es) = e.length + total es := by simp [total]
+
+/-! ### chains and databases -/
+
 /-- the level-0 links thread the nodes in order and end with 0 -/
 def chainOk : Nat → List Sblk → Prop
   | b, [] => b = 0
